@@ -374,6 +374,7 @@ def run(rep: Report) -> None:
     resolver = Resolver(prog)
     from ..inline import expand_expr
     _EXPAND[:] = [lambda e: expand_expr(prog, "", e)]
+    rep.rule("R15.17", "readers hand stored numbers to the constructors as they were written (no int / round / float / abs on the way)", floor=4)
     rep.rule("R15.1", "__getnewargs_ex__ of Dimension/Prefix/Unit returns, position by position, the attributes __new__ builds "
              "its intern key from (copy and pickle re-enter the interning constructor); a base unit also passes its name", floor=4)
     rep.rule("R15.2", "writer/reader tables: keys read by __from_json__ are written by __json__; the __measured__ tag each writer "
@@ -705,6 +706,29 @@ def run(rep: Report) -> None:
         rep.check("R15.15", f"Unit.__json__:{fld}", structural,
                   f"Unit.__json__ writes `{ast.unparse(v)[:60] if v is not None else None}` under {fld!r}: not the {fld}'s own __json__() encoding, so a unit whose "
                   f"{fld} has no name (byte carries 2**3; kilo*hecto) comes back with the identity {fld} - another unit", prog.func("Unit.__json__").where(v))
+    # R15.17: what a writer stored comes back as it was stored.  The writers store numbers raw (a prefix exponent is a float for
+    # Kilo * Byte or Kibi * Kilo, a dimension exponent an int); a reader that passes them through int() / round() / float() /
+    # abs() on the way to the constructor decodes another object (1 kB comes back as 4096 b)
+    n17 = 0
+    for cname in ("Dimension", "Prefix", "Unit", "Quantity"):
+        rq = prog.cls(cname).methods.get("__from_json__")
+        if rq is None:
+            continue
+        rfi = prog.func(rq)
+        jp = rfi.params()[1] if len(rfi.params()) > 1 else "json_object"
+        tainted = {jp}
+        for _ in range(3):
+            for st in ast.walk(rfi.node):
+                if isinstance(st, ast.Assign) and any(isinstance(x, ast.Name) and x.id in tainted for x in ast.walk(st.value)):
+                    for t in st.targets:
+                        tainted |= {x.id for x in ast.walk(t) if isinstance(x, ast.Name)}
+        lossy = [c for c in ast.walk(rfi.node) if isinstance(c, ast.Call) and ast.unparse(c.func) in ("int", "float", "round", "abs", "math.floor", "math.ceil", "math.trunc",
+                                                                                                    "floor", "ceil", "trunc")
+                 and any(isinstance(x, ast.Name) and x.id in tainted for a in c.args for x in ast.walk(a))]
+        n17 += 1
+        rep.check("R15.17", f"{cname}.__from_json__:verbatim", not lossy,
+                  f"{cname}.__from_json__ passes a stored number through `{ast.unparse(lossy[0])[:50] if lossy else ''}`: the writer stores it as it is (a prefix exponent is "
+                  "fractional for Kilo * Byte, Kibi * Kilo, Giga / Gibi), so another object is decoded (1 kB comes back as 4096 b)", rfi.where(lossy[0] if lossy else None))
     # R15.13: the pydantic form is the JSON form - nothing of pydantic's own stands between the wire and __from_json__
     pydantic_schema(rep, prog)
     rep.not_decided += ["equality of decoded float magnitudes (json float repr round-trip is trusted)", "third-party pickle variants beyond the pickle protocol hooks"]
